@@ -62,7 +62,7 @@ func prefixSpec(nontrivial string, guards ...guard) *propSpec {
 		level: "exploration",
 		rule: "each history fixes a pool (/56-/64, /60-/64, /62-/64, /64-/64, /48-/52, /120-/124, ...), 1-6 clients (every DUID kind incl. opaque) and 20-60 messages (SOLICIT/REQUEST/RENEW/REBIND, 0-3 IA_PD x 0-3 IAPrefix hints from {none, length-only, length 0, own prefix, in-pool free/other's/own block, out-of-pool, longer than the allocation size, length > 128}, 0-2 relay layers, retransmissions) sent as wire bytes through HandleMsg6 into the plugin obtained from Plugin.Setup6; a per-client prefix model decides every reply and fresh clients drain the pool at the end (conservation). " + nontrivial,
 		assumptions: assume("no lease expiry/GC exists in the code: 'for as long as the server runs' = the length of the history", "length-only hints (::/64) are outside C09's obligations"),
-		runs:        []runSpec{{engine: "prefix", qBatches: 32, qCases: 16, tBatches: 128, tCases: 48}, {engine: "prefixconc", race: true, parallel: 8, qBatches: 8, qCases: 12, tBatches: 32, tCases: 40}},
+		runs:        []runSpec{{engine: "prefix", qBatches: 32, qCases: 16, tBatches: 128, tCases: 400}, {engine: "prefixconc", race: true, parallel: 8, qBatches: 8, qCases: 12, tBatches: 64, tCases: 100}},
 		guards:      guards,
 	}
 }
@@ -95,7 +95,7 @@ var specs = map[string]*propSpec{
 		level: "exploration",
 		rule: "each case draws a DHCPv4 and/or DHCPv6 chain over all built-in plugins (any subset, any order, arguments from each plugin's accepted grammar; half of the cases dual-stack in one process), a listener bound to ve0/vf0 or unbound, and a history of 500-700 datagrams mixing stateful client scripts (6 DHCPv4 clients incl. hlen 0, 5 and 16; 4 DHCPv6 clients with IA_PD hints of length 0/64/72/128/200, IA_NA, relayed with client-link-layer option), retransmissions, grammar-generated well-formed and hostile datagrams, mutations (bit/byte flips, truncation, length +-1, duplication, splice, trailers), the empty datagram and 65507-byte datagrams; then one canary request per protocol. It runs in a fresh server process inside the private network namespace (link-level replies are real frames). Oracle: process alive, every datagram's handling returned (a watchdog expiry is a violation only if the goroutine dump shows a handler parked on a lock), canary handled, at most one reply (UDP captures + sniffed frames) per datagram. Non-trivial = history in which the chain produced at least one reply; distinct by (seed, chains)",
 		assumptions: assume("'never blocks forever' is observed as 'returned within a 150 s watchdog for the whole history, or no lock-parked handler in the dump'", "an unbound listener always gets a non-zero receive ifindex, as the kernel delivers once IP_PKTINFO is on"),
-		runs:        []runSpec{{engine: "hostile", netns: true, qBatches: 16, qCases: 3, tBatches: 64, tCases: 10, stall: 6 * time.Minute}, wireRun(0, 6), raceSlice()},
+		runs:        []runSpec{{engine: "hostile", netns: true, qBatches: 16, qCases: 3, tBatches: 64, tCases: 40, stall: 6 * time.Minute}, wireRun(0, 12), raceSlice()},
 		guards:      []guard{{"hostile.replies", 2000, "replies produced"}, {"hostile.canaries_returned", 40, "canaries"}, {"hostile.plugin.prefix", 5, "prefix in chains"}, {"hostile.plugin.range", 5, "range in chains"}, {"hostile.plugin.file", 5, "file in chains"}, {"hostile.chains_dual_stack", 10, "dual-stack chains"}},
 	},
 	"C02": {
@@ -130,7 +130,7 @@ var specs = map[string]*propSpec{
 		level: "exploration",
 		rule: "three kinds of case, each in a fresh server process through LoadPlugins: (static) a generated lease file of 1-40 lines - every MAC spelling (colon/hyphen/dot, 6/8/20 bytes, case) and address spelling (dotted, v4-mapped, compressed/expanded/upper-case IPv6), tabs/multiple blanks, comments, blank lines, duplicates, and in a third of the files one malformation (field count, MAC, address, wrong family) at a random position - accepted iff the reference parser accepts it, and then every listed MAC (and 3 unlisted) is asked for: listed -> last address listed (yiaddr + chain ends; exactly one IA_NA with the request's IAID), unlisted / no IA_NA -> reply identical to the reply without the plugin; (refresh) autorefresh with 1-9 good/bad single-pwrite equal-length rewrites of self-identifying versions: each poll sequence must be old-or-new and monotone, a good version must be served for all MACs within 400 polls / 20 s (re-armed once), a bad one must leave the old version served; (dual) DHCPv4 and DHCPv6 instances in one process with their own files and independent rewrites. Non-trivial = static file with >= 2 entries or malformed, every refresh sequence, every dual case; distinct by content",
 		assumptions: assume("replacement of the file by rename (new inode) is outside 'rewrites' and not driven", "whitespace-only lines, indented comments and CR line endings are not classified by the statement and are not generated", "'eventually' is restated as bounded progress: 400 polls over >= 20 s with one re-arm"),
-		runs:        []runSpec{{engine: "file", parallel: 12, qBatches: 24, qCases: 12, tBatches: 96, tCases: 30, stall: 6 * time.Minute}},
+		runs:        []runSpec{{engine: "file", parallel: 12, qBatches: 24, qCases: 12, tBatches: 96, tCases: 120, stall: 6 * time.Minute}},
 		guards: []guard{{"file.static.malformed", 30, "malformed files"}, {"file.static.served", 500, "served listed clients"}, {"file.static.unlisted_untouched", 200, "unlisted clients"},
 			{"file.refresh.good_rewrites", 30, "good rewrites"}, {"file.refresh.bad_rewrites_held", 10, "bad rewrites"}, {"file.dual.requests", 30, "dual-stack requests"}},
 	},
@@ -138,38 +138,38 @@ var specs = map[string]*propSpec{
 		level: "exploration",
 		rule: "per case one of 7 plugin chains (empty, option plugins, range, file, a NAK-producing plugin, yiaddr-assigning + mtu/staticroute/autoconfigure, ipv6only+sleep+nbp) in a fresh server process inside the private network namespace (listener bound or unbound, both arrival links): (1) the full matrix of 256 opcodes x 23 message-type shapes (absent, 0..18, 255, two-byte, empty) with random relay/broadcast/ciaddr fields, option 61/82/116 presence; (2) 1500 (quick) / 6000 (thorough) generated datagrams (all header fields, hlen 0..16 and beyond, option table with wrong lengths and lying length bytes, pads) of which a third are mutated (bit/byte flips, truncation at structural boundaries, length +-1, duplication, splice, large trailers). Every UDP write (capture hook) and every sniffed link-level frame counts as a reply. Oracle: answered only if the codec accepts it, op=BOOTREQUEST and type DISCOVER/REQUEST; reply fields/echo/type per the statement, at most one reply. Distinct by (chain, opcode class, type bytes, answered?) plus every distinct answered datagram",
 		assumptions: assume("that a non-nil final response is actually sent is C13's statement", "hlen > 16 is clipped by the codec and only checked for no-crash"),
-		runs:        []runSpec{{engine: "match4", netns: true, parallel: 14, qBatches: 7, qCases: 1, tBatches: 42, tCases: 1, stall: 5 * time.Minute}, wireRun(0, 6), raceSlice()},
+		runs:        []runSpec{{engine: "match4", netns: true, parallel: 14, qBatches: 7, qCases: 1, tBatches: 140, tCases: 1, stall: 5 * time.Minute}, wireRun(0, 6), raceSlice()},
 		guards:      []guard{{"match4.replies_to_type_1", 200, "replies to DISCOVER"}, {"match4.replies_to_type_3", 200, "replies to REQUEST"}, {"match4.dropped", 10000, "dropped datagrams"}, {"match4.replies_l2", 20, "link-level replies"}},
 	},
 	"C12": {
 		level: "exploration",
 		rule: "per case one of 5 chains (empty; server_id+dns+searchdomains; prefix+dns; file+nbp; sleep+synthetic) in a fresh server process inside the private network namespace, listener bound to ve0 or unbound: (1) matrix of message types 0..255 x client-id present/absent x rapid-commit present/absent, each sent plain and wrapped in 0-4 Relay-Forward layers with random link/peer addresses and Interface-ID/Remote-ID/client-link-layer options, from random global or link-local sources and ports, arriving on ve0 or vf0; (2) 1200 (quick) / 5000 (thorough) generated datagrams (every option kind incl. nested IA options, IAPrefix lengths 0 and > 128, relay depth to 32, Relay-Reply in the wrong place, relay without relay-message) of which a third are mutated. Oracle: answered only if the codec finds an inner message of a supported type; reply type table, xid, client-id, per-layer relay mirror, innermost message equal to the stateless chain's answer to the un-relayed message, destination = source, interface pin iff link-local. Distinct by (chain, type, relay depth, source class, answered?) plus every distinct answered datagram",
 		assumptions: assume("requests without a client identifier must not get one invented; relay chains containing Relay-Reply layers are no-crash only"),
-		runs:        []runSpec{{engine: "match6", netns: true, parallel: 10, qBatches: 10, qCases: 1, tBatches: 40, tCases: 1, stall: 5 * time.Minute}, wireRun(0, 6), raceSlice()},
+		runs:        []runSpec{{engine: "match6", netns: true, parallel: 10, qBatches: 10, qCases: 1, tBatches: 200, tCases: 1, stall: 5 * time.Minute}, wireRun(0, 6), raceSlice()},
 		guards:      []guard{{"match6.replies", 2000, "replies"}, {"match6.replies_relayed", 500, "relayed replies"}, {"match6.replies_link_local", 500, "link-local replies"}, {"match6.dropped", 5000, "drops"}},
 	},
 	"C13": {
 		level: "exploration",
 		rule: "synthetic plugins registered with plugins.RegisterPlugin whose handlers behave as pass / modify / replace response / stop with response / stop with nil and log the identity and marker of the request/response objects they receive and return; every chain in behaviours^len for len 0..4 (781 chains; len <= 5 in the thorough tier) x both protocols, then random mixes of dual / v4-only / v6-only / failing-setup / nil-handler / unknown plugins; a quarter to a third of the configurations go through YAML and config.Load, the rest through a config value; each in a fresh server process through plugins.LoadPlugins and the real HandleMsg4/6. Oracle: handler list = listed plugins supporting the protocol, in order (or start-up error); invocation log = configured order cut after the first stop, once each, same request object, response = predecessor's return value; datagram sent = response returned last; nothing sent after nil. In every chain-child engine each loaded built-in handler is wrapped to assert 'nil response only with stop'. Distinct by (chain, protocol, config path)",
 		assumptions: assume("the enumeration is exhaustive over behaviours^len up to the stated length; longer chains and other behaviours are sampled"),
-		runs: []runSpec{{engine: "order", netns: true, qBatches: 16, qCases: 200, tBatches: 64, tCases: 400},
+		runs: []runSpec{{engine: "order", netns: true, qBatches: 16, qCases: 200, tBatches: 64, tCases: 1500},
 			// "built-in handlers only ever return a nil response together with stop": every built-in plugin in random
 			// chains under hostile histories (pool exhaustion, foreign server ids, missing client ids ...)
-			{engine: "hostile", netns: true, qBatches: 16, qCases: 2, tBatches: 64, tCases: 6, stall: 6 * time.Minute}},
+			{engine: "hostile", netns: true, qBatches: 16, qCases: 2, tBatches: 64, tCases: 12, stall: 6 * time.Minute}},
 		guards:      []guard{{"order.chains_checked", 1500, "chains"}, {"order.must_fail", 50, "bad configurations"}, {"order.nil_final", 200, "nil final responses"}, {"order.sent_checked", 1500, "sent datagrams"}, {"order.sent_link_level", 200, "responses sent as link-level frames"}},
 	},
 	"C14": {
 		level: "exploration",
 		rule: "each case is one accepted server_id spelling (DHCPv6: LL/LLT in every keyword spelling x MAC of 6/8/20 bytes in colon/hyphen/dot form; DHCPv4: dotted and v4-mapped address) hosted in a fresh server process; DHCPv6: all 256 message types x {no, matching, other kind, same kind other MAC, longer, shorter, opaque, enterprise, LLT with other time} Server Identifier x relay depth 0-2 decided by the RFC 8415 section 16 table; DHCPv4: siaddr {absent, zero, own, other} x option 54 {absent, zero, own, other} x {DISCOVER, REQUEST} x with/without parameter list; every answered message must carry exactly this server's identifier (option 54 and siaddr for DHCPv4). Distinct by (configuration, matrix cell)",
 		assumptions: assume("0.0.0.0 inside option 54 is not classified by the statement: only no-crash is required there", "message types the server itself never answers (C12) are expected to stay unanswered"),
-		runs:        []runSpec{{engine: "sid", qBatches: 16, qCases: 4, tBatches: 64, tCases: 16}},
+		runs:        []runSpec{{engine: "sid", qBatches: 16, qCases: 4, tBatches: 64, tCases: 80}},
 		guards:      []guard{{"sid.dropped", 1000, "discard rows"}, {"sid.answered", 300, "answered rows"}},
 	},
 	"C15": {
 		level: "exploration",
 		rule: "full decision table giaddr {0, routable, link-local, broadcast} x ciaddr {same} x broadcast flag x reply {OFFER, ACK, NAK produced by a plugin} x yiaddr {0, assigned} x listener {bound to ve0, unbound} x arrival interface {ve0, vf0} = 768 cells, each with fresh random addresses/MAC/xid, 3 (quick) / 12 (thorough) repetitions, inside a private network namespace with two veth pairs; UDP replies observed at the server's WriteTo (destination, port, IP_PKTINFO ifindex), link-level unicasts observed as real frames sniffed on the veth peers (which link, destination MAC, destination IP, UDP ports, payload). Oracle: the RFC 2131 section 4.1 cascade written as an independent table. Distinct by (chain, cell)",
 		assumptions: assume("hardware-address length 6 on the link-level path (an Ethernet frame cannot carry other lengths)", "needs CAP_NET_ADMIN to create the namespace; without it the check is inconclusive"),
-		runs:        []runSpec{{engine: "addr4", netns: true, parallel: 8, qBatches: 3, qCases: 8, tBatches: 12, tCases: 8}, wireRun(2, 6), raceSlice()},
+		runs:        []runSpec{{engine: "addr4", netns: true, parallel: 8, qBatches: 3, qCases: 8, tBatches: 64, tCases: 8}, wireRun(2, 6), raceSlice()},
 		guards:      []guard{{"addr4.rows.l2", 40, "link-level rows"}, {"addr4.rows.udp_pinned", 300, "pinned rows"}, {"addr4.rows.udp", 1000, "udp rows"}},
 	},
 	"C16": {
@@ -177,10 +177,10 @@ var specs = map[string]*propSpec{
 		rule: "four -race workloads, every datagram on its own goroutine with buffers from the server's pool: (raceserver) DHCPv4 and DHCPv6 full chains in one process - server_id, sleep 200us (widens parse/bufpool.Put -> lease plugin), file autorefresh, range|prefix, option plugins - bursts of 4-64 datagrams (same client, distinct clients, pool nearly exhausted, mixed; direct and relayed) while both static lease files are rewritten in place concurrently; replies must echo their own request's xid/chaddr/client-id, leases stay in range/injective/sticky, prefixes disjoint/sticky, static versions per client never go backwards and are never a mixture; (rangeconc, prefixconc, allocconc) recorded call/return histories checked for linearizability with porcupine against the lease, prefix and allocator models. The Go race detector's log (halt_on_error=0) is parsed by the driver: any report with a coredhcp frame on either stack is a violation, deduplicated by outermost entry-point pair. Non-trivial = history with >= 1 truly overlapping pair of operations; distinct by (case, interleaving fingerprint)",
 		assumptions: assume("the race detector only judges accesses that executed; schedules are those the Go scheduler produced on this machine (overlap and buffer-reuse counts are in the evidence)", "porcupine timeouts are inconclusive"),
 		runs: []runSpec{
-			{engine: "raceserver", race: true, netns: true, parallel: 8, qBatches: 8, qCases: 3, tBatches: 48, tCases: 6, stall: 6 * time.Minute},
-			{engine: "rangeconc", race: true, parallel: 8, qBatches: 8, qCases: 8, tBatches: 32, tCases: 30},
-			{engine: "prefixconc", race: true, parallel: 8, qBatches: 8, qCases: 8, tBatches: 32, tCases: 30},
-			{engine: "allocconc", race: true, parallel: 8, qBatches: 8, qCases: 20, tBatches: 32, tCases: 100},
+			{engine: "raceserver", race: true, netns: true, parallel: 8, qBatches: 8, qCases: 3, tBatches: 64, tCases: 20, stall: 6 * time.Minute},
+			{engine: "rangeconc", race: true, parallel: 8, qBatches: 8, qCases: 8, tBatches: 64, tCases: 50},
+			{engine: "prefixconc", race: true, parallel: 8, qBatches: 8, qCases: 8, tBatches: 64, tCases: 50},
+			{engine: "allocconc", race: true, parallel: 8, qBatches: 8, qCases: 20, tBatches: 64, tCases: 200},
 			wireRun(0, 8),
 		},
 		raceDecides: true,
@@ -191,21 +191,21 @@ var specs = map[string]*propSpec{
 		level: "exploration",
 		rule: "each case is one option plugin with an argument vector from its accepted grammar (1-4 addresses, masks /1-/32, MTU 68-65535, durations, 1-4 domains with labels up to 63 bytes, 1-4 routes incl. /0 and /32, tftp/http/https/ftp URLs with and without params), hosted alone in a fresh server process, and 48 requests (DISCOVER/REQUEST or SOLICIT/REQUEST/RENEW/INFORMATION-REQUEST; option 55 / ORO = random subsets of the relevant codes in random order, or absent; option 116 present or not; yiaddr assigned by an earlier handler or not; option 51 already set or not). Differential oracle: reply with the plugin vs reply of the same chain without it must differ exactly by the table in model/opts.go (value encoded independently from the RFCs, present once, untouched otherwise, chain continues/stops/drops as stated). Non-trivial = every (configuration, request) pair evaluated; distinct by (plugin, args, request list, flags)",
 		assumptions: assume("argument values outside the wire range (MTU > 65535, durations >= 2^32 s) are outside 'in-range' and not generated", "request lists are sets (no duplicate codes); an empty option 55 is not generated", "nbp ends the chain in the code; whether it should is not part of the statement and is not asserted"),
-		runs:        []runSpec{{engine: "opt", qBatches: 16, qCases: 30, tBatches: 64, tCases: 200}},
+		runs:        []runSpec{{engine: "opt", qBatches: 16, qCases: 30, tBatches: 64, tCases: 600}},
 		guards:      []guard{{"opt.configs.ipv6only", 3, "ipv6only configurations"}, {"opt.configs.autoconfigure", 3, "autoconfigure"}, {"opt.configs.dns", 3, "dns"}, {"opt.configs.lease_time", 3, "lease_time"}},
 	},
 	"C18": {
 		level: "exploration",
 		rule: "YAML documents generated from the configuration grammar (server4/server6 present or not and in either order; listen absent / deprecated interface alias / scalar / list of 1-4 entries in every [address][%zone][:port] spelling incl. bracketed IPv6, zone inside brackets, v4-mapped, non-canonical spellings, link-local and interface-local multicast with and without zone, site-local multicast, wildcard forms; 1-5 plugins with 0-3 whitespace-separated arguments, null / empty / quoted / integer scalars) with an exact expectation, or with one injected rejection (wrong family, unparseable address, non-numeric port, plugins missing / empty / scalar / map, item with two keys, scalar item, listen+interface, no protocol section); a third of the documents are text mutations (byte overwrite, line deletion, re-indentation, unquoting, YAML re-typed scalars, duplication, truncation) classified no-panic-only. Each file goes through config.Load in a child process inside the private network namespace, so the interface set (multicast expansion) is known. Distinct by document text",
 		assumptions: assume("plugin names are lower-case (viper lower-cases keys); out-of-range ports, unbracketed IPv6 and YAML re-typed scalars are no-panic-only", "the set of multicast-capable interfaces is computed by the harness from net.Interfaces() independently of the loader"),
-		runs:        []runSpec{{engine: "config", netns: true, qBatches: 16, qCases: 20, tBatches: 64, tCases: 200}},
+		runs:        []runSpec{{engine: "config", netns: true, qBatches: 16, qCases: 20, tBatches: 64, tCases: 1000}},
 		guards:      []guard{{"config.class.must-load", 3000, "must-load documents"}, {"config.class.must-reject", 1500, "must-reject documents"}, {"config.class.no-panic", 3000, "mutated documents"}, {"config.listeners_checked", 5000, "listeners compared"}},
 	},
 	"C19": {
 		level: "exploration",
 		rule: "each case is one built-in plugin (all 15) with one argument vector drawn from valid, boundary and invalid values of each argument kind (addresses of both families and v4-mapped, CIDRs incl. /0 and host routes, durations incl. negative/huge/garbage, integers incl. negative/overflow, URLs, labels of 63/64/255 bytes, file names: valid, malformed, empty, missing, directory; arity 0..6), hosted alone in a fresh server process through plugins.LoadPlugins; if setup accepts it, 40 requests are handled and every reply must parse, re-serialise to the same bytes and carry the options of the in-memory response. Non-trivial = every vector (accepted or rejected); distinct by (plugin, protocol, args)",
 		assumptions: assume("silent truncation that round-trips (MTU 70000 -> 4464) is an observation, not a violation, as the statement only demands a reply that serialises and parses back to the same options"),
-		runs:        []runSpec{{engine: "setup", qBatches: 16, qCases: 180, tBatches: 64, tCases: 1800}},
+		runs:        []runSpec{{engine: "setup", qBatches: 16, qCases: 180, tBatches: 64, tCases: 4000}},
 		guards:      []guard{{"setup.accepted", 200, "accepted vectors"}, {"setup.rejected", 200, "rejected vectors"}, {"setup.replies_round_tripped", 3000, "replies round-tripped"}},
 	},
 	"C20": {
